@@ -94,6 +94,34 @@ theorem nonneg_StorageTrapAll (inflow : List (RNum R)) (s0 : RNum R) (t : List (
     · exact RNum.add_nonneg (hx x (List.mem_cons_self ..)) hs
     · exact hx y (List.mem_cons_of_mem _ hy)
 
+/-- **nonneg_StorageTrapAll under rounding, on the adapter `model.run`** (parallels the sign clause of
+`OW.Props.C12.budget_StorageTrapAll_model`; outputs and final store are read from the model's result): for every rounding, every
+inflow-mass series (the EMPTY one included: the stored mass is returned unchanged) and every other input series (not read), a
+non-negative store and non-negative inflow masses give a successful run whose final store and trapped series are non-negative and
+whose downstream series is identically 0. -/
+theorem nonneg_StorageTrapAll_model (inflowMass inflow outflow volume : List (RNum R)) (s0 : RNum R)
+    (hs : 0 ≤ s0.val) (hx : ∀ x ∈ inflowMass, 0 ≤ x.val) :
+    ∃ (r : KOut (RNum R)) (trapped out : List (RNum R)) (sf : RNum R),
+      (StorageTrapAll.model (α := RNum R)).run [] [inflowMass, inflow, outflow, volume] [s0] = .ok r ∧
+      r.outputs = [trapped, out] ∧ r.states = [sf] ∧ 0 ≤ sf.val ∧ (∀ y ∈ trapped, 0 ≤ y.val) ∧ (∀ y ∈ out, y.val = 0) ∧
+      trapped.length = inflowMass.length ∧ out.length = inflowMass.length ∧ (inflowMass = [] → sf = s0) := by
+  cases inflowMass with
+  | nil => exact ⟨_, [], [], s0, rfl, rfl, rfl, hs, by simp, by simp, rfl, rfl, fun _ => rfl⟩
+  | cons x xs =>
+    refine ⟨_, (x + s0) :: xs, zeros (xs.length + 1), 0.0, rfl, rfl, rfl, by rw [RNum.sci_zero_val], ?_, ?_, by simp,
+      by simp [zeros], fun h => absurd h (List.cons_ne_nil _ _)⟩
+    · intro y hy
+      rcases List.mem_cons.mp hy with rfl | hy
+      · exact RNum.add_nonneg (hx x (List.mem_cons_self ..)) hs
+      · exact hx y (List.mem_cons_of_mem _ hy)
+    · intro y hy
+      simp only [zeros, List.mem_replicate] at hy
+      rw [hy.2]; rfl
+
+/-- non-vacuity: the empty series keeps the store, whatever the rounding -/
+example (s0 : RNum R) : (StorageTrapAll.model (α := RNum R)).run [] [[], [], [], []] [s0] =
+    .ok { outputs := [[], []], states := [s0], tags := ["trapall-empty"] } := rfl
+
 /-! ## InstreamCoarseSediment (inputs: upstream, lateral, reach-local mass rates) -/
 
 /-- **nonneg_InstreamCoarseSediment under rounding** (parallels `OW.Props.C12.nonneg_InstreamCoarseSediment`): Δt ≥ 0,
